@@ -162,6 +162,57 @@ def record_layout(ctx):
         ctx.check(bool(hdr), "C33.header-first", fn.site, q + ".header", found=f"{len(hdr)} header read(s)", required="the header line is consumed before the records", nontrivial=False)
 
 
+def _values_normalise(ctx) -> bool:
+    """GeneratedEvLogSampler._values(site, readers): one value per (field of the site's schema, reader), equal to the reader's
+    result taken modulo 2**width and read as two's complement when the field is signed - decided by evaluating the appended term
+    for widths 0..4, both signednesses and every bit pattern (also with garbage above the width and already-signed inputs)."""
+    if "_c33_values" in ctx.__dict__:
+        return ctx.__dict__["_c33_values"]
+    from ..logic import evalt, NotEvaluable
+
+    fn = Fn(ctx.repo, SAMPLER, "GeneratedEvLogSampler._values", "C33")
+    site, rd = fn.param(1), fn.param(2)
+    ok = True
+    detail = ""
+    checked = 0
+    for ex in fn.exs:
+        apps = [e for e in ex.of(Effect) if pmatch("Q_l.append(Q_v)", e.call) is not None and len(loops(e)) == 1]
+        rets = [r for r in ex.of(Return) if r.callid is None]
+        if len(apps) != 1 or len(rets) != 1 or rets[0].value != pmatch("Q_l.append(Q_v)", apps[0].call)["l"]:
+            ok, detail = False, "not a list built by one append per field"
+            continue
+        e = apps[0]
+        (b,), it = loops(e)[0]
+        mz = pmatch("zip(Q_f, Q_r)", it)
+        if mz is None or mz["r"] != rd or mz["f"] != ("a", ("i", pat("self.generated.schema.sites"), site), "fields"):
+            ok, detail = False, f"loop over {tstr(it)[:100]}"
+            continue
+        field = ("i", mz["f"], b)
+        R, W, S = ("call", ("i", rd, b), (), ()), ("a", field, "width"), ("a", field, "signed")
+        val = pmatch("Q_l.append(Q_v)", e.call)["v"]
+        for w in range(0, 5):
+            for signed in (False, True):
+                for p in list(range(-(1 << w), 1 << (w + 1))):
+                    env = {R: p, W: w, S: signed}
+                    try:
+                        if not all(bool(evalt(t, env)) == v for t, v in ex.config):
+                            continue
+                        got = evalt(val, env)
+                    except NotEvaluable as x:
+                        ok, detail = False, f"cannot evaluate ({x})"
+                        break
+                    want = p & ((1 << w) - 1)
+                    if signed and w and want >> (w - 1):
+                        want -= 1 << w
+                    checked += 1
+                    if got != want:
+                        ok, detail = False, f"width {w} signed {signed} reader result {p}: {got}, expected {want}"
+    ctx.check(ok and checked >= 100, "C33.sampler-values", fn.site, "GeneratedEvLogSampler._values", found=detail or f"{checked} (width, signedness, pattern) cases agree",
+              required="each value is the reader's result modulo 2**width, as two's complement when the field is signed")
+    ctx.__dict__["_c33_values"] = ok and checked >= 100
+    return ctx.__dict__["_c33_values"]
+
+
 def sampler(ctx):
     fn = Fn(ctx.repo, SAMPLER, "GeneratedEvLogSampler.sample", "C33")
     cycle, sink = fn.param(1), fn.param(2)
@@ -174,7 +225,10 @@ def sampler(ctx):
         ok = len(lp) == 1 and pmatch("enumerate(self._sites)", lp[0][1]) is not None and m["i"] == lp[0][0][0] and m["c"] == cycle
         site = lp[0][0][0] if lp else None
         vals = m["v"]
-        okv = vals[0] == "lc" and vals[3][0][1] == ("i", ("i", pat("self._sites"), site), ("c", 1)) and vals[2] == ("call", vals[3][0][0], (), ())
+        # the values reported are the *field values*: every reader's result reduced to the width of its field and sign-extended
+        # when the field is signed (F43: a backend returns the bit pattern of a wire; the captured log holds signed values)
+        readers = ("i", ("i", pat("self._sites"), site), ("c", 1))
+        okv = vals == ("call", ("a", ("self",), "_values"), (site, readers), ()) and _values_normalise(ctx)
         g = py_guard(e)
         trig_atoms = [a for a in atoms_of(g) if any(s == site for s in subterms(a))]
         okg = len(trig_atoms) == 1
@@ -307,8 +361,42 @@ def consumer(ctx):
               required="every attribute marked with an event class is registered under that event's name, and the table is stored on the class")
 
 
+GEN = "transactron/utils/gen.py"
+
+
+def debug_wrapper_reads_only(ctx):
+    """F42 (the generated-design route): the wrapper that exposes triggers and fields of emission sites (and log records) as
+    named signals only READS the design: the signal it hands out is one of its own, driven from the value.  Driving a signal of
+    the design that has no assignment statement (an input port, the data of a memory read port, an instance output) turns the port
+    into a constant / gives the signal two drivers."""
+    import ast
+
+    ctx.use(GEN)
+    mi = ctx.repo.module(GEN)
+    cls = [c for c in mi.tree.body if isinstance(c, ast.ClassDef) and c.name == "VerilogDebugWrapper"]
+    fns = [f for c in cls for e in c.body if isinstance(e, ast.FunctionDef) and e.name == "elaborate" for f in ast.walk(e) if isinstance(f, ast.FunctionDef) and f.name == "to_signal"]
+    ctx.floor("C33", "VerilogDebugWrapper.elaborate.to_signal", len(fns), 1, GEN)
+    for f in fns:
+        param = f.args.args[0].arg
+        # names that (may) alias the parameter: the parameter and names assigned from an expression of it that is not a constructor
+        alias = {param}
+        for st in ast.walk(f):
+            if isinstance(st, ast.Assign) and len(st.targets) == 1 and isinstance(st.targets[0], ast.Name):
+                v = st.value
+                is_cast = isinstance(v, ast.Call) and isinstance(v.func, ast.Attribute) and v.func.attr == "cast" and v.args and isinstance(v.args[0], ast.Name) and v.args[0].id in alias
+                if (isinstance(v, ast.Name) and v.id in alias) or is_cast:
+                    alias.add(st.targets[0].id)
+        drives = [c for c in ast.walk(f) if isinstance(c, ast.Call) and isinstance(c.func, ast.Attribute) and c.func.attr == "eq" and isinstance(c.func.value, ast.Name) and c.func.value.id in alias]
+        rets = [r for r in ast.walk(f) if isinstance(r, ast.Return)]
+        returns_alias = [r for r in rets if isinstance(r.value, ast.Name) and r.value.id in alias]
+        ctx.check(not drives and not returns_alias and bool(rets), "C33.debug-wrapper-reads-only", f"{GEN}:{f.lineno}", "VerilogDebugWrapper.to_signal",
+                  found=f"{len(drives)} assignment(s) to the given value, {len(returns_alias)} return(s) of the given value itself",
+                  required="the value is copied into a signal of the wrapper (sig = Signal.like(val); comb += sig.eq(val)); the design's own signal is neither driven nor handed out")
+
+
 def check(ctx):
     ctx.use(EMIT, LOG, SAMPLER, TEVLOG, CONSUMER, SCHEMA)
+    debug_wrapper_reads_only(ctx)
     capture_process(ctx)
     from . import c33y
 
@@ -324,6 +412,13 @@ def check(ctx):
 
 
 MUTANTS = [
+    ("sampler-raw-bit-patterns", SAMPLER, "sink.emit_raw(cycle, site, self._values(site, field_readers))\n        else:", "sink.emit_raw(cycle, site, [read() for read in field_readers])\n        else:"),
+    ("sampler-no-sign-extension", SAMPLER, "            if field.signed and field.width and value >> (field.width - 1):\n                value -= 1 << field.width\n", ""),
+    ("sampler-sign-bit-off-by-one", SAMPLER, "value >> (field.width - 1)", "value >> field.width"),
+    ("sampler-values-of-other-site", SAMPLER, "self.generated.schema.sites[site].fields", "self.generated.schema.sites[0].fields"),
+    ("static-not-canonical", "transactron/evlog/event.py", "    return json.loads(json.dumps(value))\n", "    return value\n"),
+    ("tuple-field-stays-list", "transactron/evlog/event.py", "        return tuple(raw)\n", "        return raw\n"),
+    ("debug-wrapper-drives-undriven", GEN, "            sig = Signal.like(val)\n            m.d.comb += sig.eq(val)\n            return sig\n", "            if isinstance(val, Signal):\n                m.d.comb += val.eq(val.init)\n                return val\n            sig = Signal.like(val)\n            m.d.comb += sig.eq(val)\n            return sig\n"),
     ("capture-fields-before-trigger", TEVLOG, "                trigger = next(it)\n                field_values = [next(it) for _ in rec.fields]", "                field_values = [next(it) for _ in rec.fields]\n                trigger = next(it)"),
     ("capture-sample-order", TEVLOG, "chain.from_iterable((rec.trigger, *rec.fields.values()) for rec in records)", "chain.from_iterable((*rec.fields.values(), rec.trigger) for rec in records)"),
     ("capture-always-emits", TEVLOG, "                if trigger:\n                    sink.emit_raw(ticks_val, site, field_values)", "                sink.emit_raw(ticks_val, site, field_values)"),
@@ -334,7 +429,7 @@ MUTANTS = [
     ("writer-swapped-columns", LOG, "self._fp.write(json.dumps([cycle, site, list(values)]) + \"\\n\")", "self._fp.write(json.dumps([site, cycle, list(values)]) + \"\\n\")"),
     ("load-swapped", LOG, "                cycle, site, values = json.loads(line)\n                log.raw.append((cycle, site, values))", "                site, cycle, values = json.loads(line)\n                log.raw.append((cycle, site, values))"),
     ("sampler-packed-shifted", SAMPLER, "if packed >> site & 1:", "if packed >> (site + 1) & 1:"),
-    ("sampler-wrong-index", SAMPLER, "                if trigger_reader():\n                    sink.emit_raw(cycle, site, [read() for read in field_readers])", "                if trigger_reader():\n                    sink.emit_raw(cycle, len(self._sites) - 1 - site, [read() for read in field_readers])"),
+    ("sampler-wrong-index", SAMPLER, "                if trigger_reader():\n                    sink.emit_raw(cycle, site, self._values(site, field_readers))", "                if trigger_reader():\n                    sink.emit_raw(cycle, len(self._sites) - 1 - site, self._values(site, field_readers))"),
     ("emit-ungated", EMIT, "        m.d.comb += trigger.eq(Value.cast(when).any())\n        self.top_emit(ev, when=trigger, src_loc=get_src_loc(src_loc))", "        self.top_emit(ev, when=when, src_loc=get_src_loc(src_loc))"),
     ("consumer-unsorted", CONSUMER, "for rec in sorted(records, key=lambda rec: rec.cycle):", "for rec in records:"),
     ("consumer-sorted-by-site", CONSUMER, "sorted(records, key=lambda rec: rec.cycle)", "sorted(records, key=lambda rec: rec.source_name)"),
